@@ -27,7 +27,7 @@ theorem LTree.get_eq_some (tr : Nat) (l : LTree) (tree : Option Nat) (n : Nat) (
     · simp [hp]
 
 section
-variable {c : Cfg} {H : Nat → Prop} {P : Nat → Nat} {R : Nat → Prop} {m : Mem}
+variable {c : Cfg} {H : Nat → Nat} {P : Nat → Nat} {R : Nat → Prop} {m : Mem}
 
 /-- changing counter/start row of a present slot inside its tree -/
 theorem UpperInv.set_slot_same_tree (inv : UpperInv c H P R m) (s : Nat) (l l' : LTree) (hl : m.slots[s]? = some l)
@@ -57,7 +57,7 @@ theorem UpperInv.set_slot_same_tree (inv : UpperInv c H P R m) (s : Nat) (l l' :
     · rw [LTree.freeFor_other _ _ l (fun h => e h.symm), LTree.freeFor_other _ _ l' (by rw [hrow]; exact fun h => e h.symm), hP i e]
 
 /-- what `Locals::get` returns -/
-def LocalsGot (c : Cfg) (H : Nat → Prop) (P : Nat → Nat) (R : Nat → Prop) (m : Mem) (s : Nat) (tree : Option Nat) (n : Nat)
+def LocalsGot (c : Cfg) (H : Nat → Nat) (P : Nat → Nat) (R : Nat → Prop) (m : Mem) (s : Nat) (tree : Option Nat) (n : Nat)
     (r : Except (Option Reservation) Nat) (m' : Mem) : Prop :=
   match r with
   | .ok row => (∀ t, tree = some t → row / c.geom.treeRows = t) ∧ row / c.geom.treeRows < c.ntrees ∧
